@@ -7,7 +7,12 @@
    the expressions handed to `self._blocks.get(...)` / `self._blocks.pop(...)`, and the
    '%'-format strings used to build block keys ('%s:%s', '%s::%s', '%s.%s', 'SECTION:%s').
  * girwriter.py (Python `ast`): per writer function the attribute-name literals it can append
-   and which of the shared helpers (_append_version, _append_node_generic, _write_generic) it calls.
+   and which of the shared helpers (_append_version, _append_node_generic, _write_generic) it calls;
+   for the identifier-level attributes also the value expression and the guard under which each
+   is appended (`if x:` vs `if x is not None:` is the difference between dropping and writing '').
+ * maintransformer.py: the control skeleton (statements without docstring and without
+   message.* diagnostics) of the functions the model mirrors statement by statement:
+   _apply_annotation_rename_to and _pair_property_accessors.
 
 The model builds its keys with the generated format strings and spells annotations with the
 generated names; `C03_tables` (a `decide` theorem) pins the shapes the model was written for.
@@ -117,6 +122,92 @@ def writer_literals(fn):
     return srt(attrs), srt(tags), srt(calls)
 
 
+IDENT_ATTRS = ['introspectable', 'version', 'deprecated', 'deprecated-version', 'stability', 'shadows', 'shadowed-by',
+               'glib:set-property', 'glib:get-property', 'glib:finish-func', 'glib:sync-func', 'glib:async-func',
+               'setter', 'getter', 'default-value', 'emitter', 'glib:ref-func', 'glib:unref-func',
+               'glib:set-value-func', 'glib:get-value-func', 'copy-function', 'free-function', 'foreign', 'invoker']
+
+SKELETON_FUNCS = ['_apply_annotation_rename_to', '_pair_property_accessors']
+
+
+def writer_conditions(fn):
+    """'attr=<value expression> if <guard>' for every identifier-level ('attr', value) appended under
+    a chain of if/elif tests, in source order"""
+    out = []
+
+    def visit(stmts, guard):
+        for st in stmts:
+            if isinstance(st, pyast.If):
+                t = pyast.unparse(st.test)
+                visit(st.body, guard + [t])
+                visit(st.orelse, guard + ['not (%s)' % t])
+            elif isinstance(st, (pyast.With, pyast.For, pyast.While, pyast.Try)):
+                visit(st.body, guard + ['<%s>' % type(st).__name__])
+            else:
+                for node in pyast.walk(st):
+                    if (isinstance(node, pyast.Call) and isinstance(node.func, pyast.Attribute)
+                            and node.func.attr == 'append' and node.args and isinstance(node.args[0], pyast.Tuple)
+                            and len(node.args[0].elts) == 2 and isinstance(node.args[0].elts[0], pyast.Constant)
+                            and node.args[0].elts[0].value in IDENT_ATTRS):
+                        out.append('%s=%s if %s' % (node.args[0].elts[0].value, pyast.unparse(node.args[0].elts[1]),
+                                                    ' and '.join(guard) or 'True'))
+    visit(fn.body, [])
+    return out
+
+
+class _DropDiagnostics(pyast.NodeTransformer):
+    """remove docstrings, `message.*(...)` statements and assignments to locals that are never read
+    (they only feed diagnostics); an `if` left without any statement disappears, an emptied branch of
+    an if/elif/else chain becomes `pass`"""
+
+    def __init__(self, dead):
+        self.dead = dead
+
+    def _is_diag(self, st):
+        if isinstance(st, pyast.Expr):
+            v = st.value
+            if isinstance(v, pyast.Constant) and isinstance(v.value, str):
+                return True
+            if (isinstance(v, pyast.Call) and isinstance(v.func, pyast.Attribute)
+                    and isinstance(v.func.value, pyast.Name) and v.func.value.id == 'message'):
+                return True
+        if isinstance(st, pyast.Assign) and all(isinstance(t, pyast.Name) and t.id in self.dead for t in st.targets):
+            return True
+        if isinstance(st, pyast.If) and not st.body and not st.orelse:
+            return True
+        return False
+
+    def generic_visit(self, node):
+        node = super().generic_visit(node)
+        for field in ('body', 'orelse', 'finalbody'):
+            l = getattr(node, field, None)
+            if isinstance(l, list) and l and all(isinstance(x, pyast.stmt) for x in l):
+                kept = [x for x in l if not self._is_diag(x)]
+                if not kept and field == 'body' and not (isinstance(node, pyast.If) and not node.orelse):
+                    kept = [pyast.Pass()]
+                setattr(node, field, kept)
+        if isinstance(node, pyast.If) and not node.body and node.orelse:
+            node.body = [pyast.Pass()]
+        return node
+
+
+def skeleton(fn):
+    import copy
+    tree = copy.deepcopy(fn)
+    dead = set()
+    for _ in range(5):
+        tree = _DropDiagnostics(dead).visit(tree)
+        loaded = {n.id for n in pyast.walk(tree) if isinstance(n, pyast.Name) and isinstance(n.ctx, pyast.Load)}
+        stored = {n.id for n in pyast.walk(tree) if isinstance(n, pyast.Name) and isinstance(n.ctx, pyast.Store)}
+        new_dead = (stored - loaded) | dead
+        if new_dead == dead:
+            break
+        dead = new_dead
+    pyast.fix_missing_locations(tree)
+    text = pyast.unparse(tree)
+    return text.split('\n')[1:]       # without the `def` line (parameter names are not the model's business)
+
+
 def main():
     install_stub_lexer()
     sys.path.insert(0, REPO)
@@ -177,6 +268,17 @@ def main():
                  % ',\n  '.join('(%s, %s)' % (lean_str(n), lean_list([lean_str(x) for x in t])) for n, _a, t, _c in wl))
     lines.append('def writerCalls : List (String × List String) := [\n  %s]'
                  % ',\n  '.join('(%s, %s)' % (lean_str(n), lean_list([lean_str(x) for x in c])) for n, _a, _t, c in wl))
+    lines.append('')
+    lines.append('/-- per writer function: identifier-level attribute, value expression and guard, in source order -/')
+    lines.append('def writerConds : List (String × List String) := [\n  %s]'
+                 % ',\n  '.join('(%s, %s)' % (lean_str(n), lean_list([lean_str(x) for x in
+                                                                   (writer_conditions(gw[n]) if n in gw else ['<missing>'])]))
+                                for n in WRITER_FUNCS))
+    lines.append('')
+    lines.append('/-- control skeleton (no docstring, no diagnostics) of the functions mirrored statement by statement -/')
+    lines.append('def skeletons : List (String × List String) := [\n  %s]'
+                 % ',\n  '.join('(%s, [\n    %s])' % (lean_str(n), ',\n    '.join(
+                     lean_str(x) for x in (skeleton(mt[n]) if n in mt else ['<missing>']))) for n in SKELETON_FUNCS))
     lines.append('')
     lines.append('end GIVerif.Gen.IdentAnn')
     text = '\n'.join(lines) + '\n'
